@@ -90,7 +90,10 @@ def case_random(ctx, rng, wd):
     cellkind = "ortho" if nlkind == "voronoi" else str(rng.choice(["ortho", "ortho", "tri"]))
     T = int(rng.choice([1, 2, 3, 4, 6]))
     N = int(rng.integers(8, 50))
-    cell = gc.make_cell(rng, 2, cellkind, lmin=5, lmax=9)
+    bigsys = N >= 44 and T <= 2 and nlkind in ("nnearest", "own")
+    if bigsys:
+        N = int(rng.choice([130, 260, 520]))          # beyond the usual size (block-wise evaluation boundaries)
+    cell = gc.make_cell(rng, 2, cellkind, lmin=5 * (N / 40.0) ** 0.5 if bigsys else 5, lmax=9 * (N / 40.0) ** 0.5 if bigsys else 9)
     f0 = gc.make_frac(rng, 2, N, str(rng.choice(["gas", "lattice", "hardcore"])))
     N = len(f0)
     step = int(rng.choice([1, 100]))
@@ -160,6 +163,15 @@ def case_random(ctx, rng, wd):
     info = lambda: {"l": l, "nl": nlkind, "N": N, "T": T, "cell": cellkind, "H": Hs, "ppp": ppp, "weights": bool(fw), "signed": signed, "timesteps": ts,  # noqa: E731
                     "positions": [s.positions for s in snaps.snapshots] if N <= 14 else "omitted", "lists": lists if N <= 14 else "omitted"}
     phi_file = os.path.join(wd, "phi.npy") if rng.random() < 0.2 else ""
+    if bigsys:
+        ctx.count("systems_beyond_usual_size")
+    if rng.random() < 0.3:
+        # history: the same trajectory and files analysed immediately before with ANOTHER symmetry (a scan over l), or another mask
+        if rng.random() < 0.7:
+            okp, bp = ctx.call("boo_2d/prior_object", boo_2d, snaps, l + 1 if l < 12 else l - 1, fn, fw, ppp, Nmax, "", data=info)
+        else:
+            okp, bp = ctx.call("boo_2d/prior_object", boo_2d, snaps, l, fn, fw, 1 - ppp if (1 - ppp).any() else ppp, Nmax, "", data=info)
+        ctx.count("prior_object_one_argument_changed")
     ok, b = ctx.call("boo_2d", boo_2d, snaps, l, fn, fw, ppp, Nmax, phi_file, data=info)
     ctx.case(f"{nlkind}/{'signed' if signed else ('weighted' if fw else 'plain')}/{cellkind}", snaps.snapshots[0].positions, lists[0], l, nontrivial=True,
              sample={"l": l, "neighbours": nlkind, "weights": bool(fw), "signed": signed, "N": N, "T": T, "cell": cellkind, "ppp": ppp})
